@@ -32,14 +32,23 @@ Struct, SeqS = nm.Struct, nm.SeqS
 class Seg(sym.Abstract):
     """wrap(node(s)) for s in seq (list order: seq order, or reversed)."""
 
-    def __init__(self, seq, wrap=None, rev=False, name='k'):
+    def __init__(self, seq, wrap=None, rev=False, name='k', cond=None):
         self.seq = seq
         self.wrap = wrap
         self.rev = rev
         self.name = name
+        self.cond = cond  # filter of a comprehension (node -> truth)
+        self._n = None
 
     def length(self):
-        return z3.Length(self.seq)
+        if self.cond is None:
+            return z3.Length(self.seq)
+        if self._n is None:
+            # number of elements that pass the filter: unknown
+            p = cur()
+            self._n = p.fresh_int('passing_' + self.name)
+            p.assume(z3.And(self._n >= 0, self._n <= z3.Length(self.seq)))
+        return self._n
 
 
 class Opaque(sym.Abstract):
@@ -115,6 +124,8 @@ class AbsList(sym.Abstract):
                                      part.top_end)
             return item
         # segment in list order seq (or reversed): which end of seq?
+        if part.cond is not None:
+            raise Unsupported('taking an element of a filtered segment')
         n = part.length()
         first = (part.rev and top_end) or (not part.rev and not top_end)
         if first:
@@ -154,7 +165,7 @@ def as_abs(eng, x):
                 parts.append(part)
             elif isinstance(part, Seg):
                 parts.append(Seg(part.seq, part.wrap, not part.rev,
-                                 part.name))
+                                 part.name, part.cond))
             else:
                 raise Unsupported('reversed() of an opaque list')
         return AbsList(eng, parts)
@@ -206,7 +217,7 @@ def install(eng):
         """[elt for target in <abstract sequence>] without conditions."""
         import ast
         g = node.generators[0]
-        if len(node.generators) != 1 or g.ifs or isinstance(
+        if len(node.generators) != 1 or isinstance(
                 node, (ast.DictComp, ast.SetComp)):
             return NotImplemented
         if isinstance(it, ObjVal) and not (
@@ -230,13 +241,31 @@ def install(eng):
 
             return wrap
 
+        def make_cond(inner):
+            if not g.ifs:
+                return None
+
+            def cond(n):
+                x = inner(n) if inner else n
+                cenv = Env(env, func)
+                e.assign(g.target, x, cenv, mod, clsctx)
+                return all(e.truth(e.eval(c, cenv, mod, clsctx))
+                           for c in g.ifs)
+
+            return cond
+
         parts = []
         for part in src.parts:
             if isinstance(part, tuple):
-                parts.append(('item', compose(None)(part[1])))
+                c = make_cond(None)
+                if c is None or c(part[1]):
+                    parts.append(('item', compose(None)(part[1])))
             elif isinstance(part, Seg):
+                if part.cond is not None and g.ifs:
+                    return NotImplemented
                 parts.append(Seg(part.seq, compose(part.wrap), part.rev,
-                                 part.name))
+                                 part.name,
+                                 make_cond(part.wrap) or part.cond))
             else:
                 return NotImplemented
         return AbsList(e, parts)
